@@ -9,6 +9,8 @@ open Gql
 
 theorem sanitize_nil : sanitize [] = [] := by decide
 
+@[simp] theorem decLink_null : decLink .null = .ok () := rfl
+
 /-- the discriminator that goes with the `legacy` flag of the image -/
 def discOf (legacy : Bool) : Disc := if legacy then legacyDisc else repairedDisc
 
@@ -350,5 +352,232 @@ mutual
       · exact ih1 k hk
       · exact ih2 k hk
 end
+
+/- ---------------- the decision procedure decides `Fix…` ---------------- -/
+
+theorem fixTypeB_iff (f : Bytes → Bytes) (t : GType) : fixTypeB f t = true ↔ FixType f t := by
+  induction t with
+  | named n nn p => simp [fixTypeB, FixType]
+  | list e nn p ih => simpa [fixTypeB, FixType] using ih
+
+mutual
+  theorem fixValueB_iff (f : Bytes → Bytes) (v : Value) : fixValueB f v = true ↔ FixValue f v := by
+    match v with
+    | .mk k raw ch p =>
+      have ih := fixChildrenB_iff f ch
+      simp [fixValueB, FixValue, ih]
+  theorem fixChildrenB_iff (f : Bytes → Bytes) (ch : Children) : fixChildrenB f ch = true ↔ FixChildren f ch := by
+    match ch with
+    | .nil => simp [fixChildrenB, FixChildren]
+    | .cons n v p rest =>
+      have ih1 := fixValueB_iff f v
+      have ih2 := fixChildrenB_iff f rest
+      simp [fixChildrenB, FixChildren, ih1, ih2]
+end
+
+theorem fixArgB_iff (f : Bytes → Bytes) (a : Argument) : fixArgB f a = true ↔ FixArg f a := by
+  simp [fixArgB, FixArg, fixValueB_iff]
+
+theorem fixArgsB_iff (f : Bytes → Bytes) (as : List Argument) : as.all (fixArgB f) = true ↔ ∀ a ∈ as, FixArg f a := by
+  simp [List.all_eq_true, fixArgB_iff]
+
+theorem fixDirB_iff (f : Bytes → Bytes) (d : Directive) : fixDirB f d = true ↔ FixDir f d := by
+  simp only [fixDirB, FixDir, Bool.and_eq_true, decide_eq_true_eq, fixArgsB_iff]
+
+theorem fixDirsB_iff (f : Bytes → Bytes) (ds : List Directive) : ds.all (fixDirB f) = true ↔ ∀ d ∈ ds, FixDir f d := by
+  simp [List.all_eq_true, fixDirB_iff]
+
+mutual
+  theorem fixSelB_iff (f : Bytes → Bytes) (s : Selection) : fixSelB f s = true ↔ FixSel f s := by
+    match s with
+    | .field al nm args ds sel p =>
+      have ih := fixSelsB_iff f sel
+      simp only [fixSelB, FixSel, Bool.and_eq_true, decide_eq_true_eq, fixArgsB_iff, fixDirsB_iff, ih]
+    | .spread nm ds p =>
+      simp only [fixSelB, FixSel, Bool.and_eq_true, decide_eq_true_eq, fixDirsB_iff]
+    | .inline tc ds sel p =>
+      have ih := fixSelsB_iff f sel
+      simp only [fixSelB, FixSel, Bool.and_eq_true, decide_eq_true_eq, fixDirsB_iff, ih]
+  theorem fixSelsB_iff (f : Bytes → Bytes) (ss : Selections) : fixSelsB f ss = true ↔ FixSels f ss := by
+    match ss with
+    | .nil => simp [fixSelsB, FixSels]
+    | .cons s rest =>
+      have ih1 := fixSelB_iff f s
+      have ih2 := fixSelsB_iff f rest
+      simp only [fixSelsB, FixSels, Bool.and_eq_true, ih1, ih2]
+end
+
+theorem fixVarDefB_iff (f : Bytes → Bytes) (v : VarDef) : fixVarDefB f v = true ↔ FixVarDef f v := by
+  have hd : fixOptValueB f v.default = true ↔ ∀ x, v.default = some x → FixValue f x := by
+    cases v.default with
+    | none => simp [fixOptValueB]
+    | some x => simp [fixOptValueB, fixValueB_iff]
+  simp only [fixVarDefB, FixVarDef, Bool.and_eq_true, decide_eq_true_eq, fixTypeB_iff, hd, fixDirsB_iff]
+
+theorem fixOpB_iff (f : Bytes → Bytes) (o : OperationDef) : fixOpB f o = true ↔ FixOp f o := by
+  have hv : o.vars.all (fixVarDefB f) = true ↔ ∀ v ∈ o.vars, FixVarDef f v := by
+    simp [List.all_eq_true, fixVarDefB_iff]
+  simp only [fixOpB, FixOp, Bool.and_eq_true, decide_eq_true_eq, hv, fixDirsB_iff, fixSelsB_iff]
+
+theorem fixFragB_iff (f : Bytes → Bytes) (fr : FragmentDef) : fixFragB f fr = true ↔ FixFrag f fr := by
+  have hv : fr.vars.all (fixVarDefB f) = true ↔ ∀ v ∈ fr.vars, FixVarDef f v := by
+    simp [List.all_eq_true, fixVarDefB_iff]
+  simp only [fixFragB, FixFrag, Bool.and_eq_true, decide_eq_true_eq, hv, fixDirsB_iff, fixSelsB_iff]
+
+theorem fixDocB_iff (f : Bytes → Bytes) (d : QueryDoc) : fixDocB f d = true ↔ FixDoc f d := by
+  simp [fixDocB, FixDoc, List.all_eq_true, fixOpB_iff, fixFragB_iff]
+
+theorem utf8CleanB_iff (d : QueryDoc) : utf8CleanB d = true ↔ Utf8Clean d := fixDocB_iff sanitize d
+
+instance (d : QueryDoc) : Decidable (Utf8Clean d) := decidable_of_iff _ (utf8CleanB_iff d)
+
+/- ---------------- addressing: the image commutes with `selAt` ---------------- -/
+
+theorem nth?_imgSels (f : Bytes → Bytes) (l : Bool) :
+    ∀ (ss : Selections) (i : Nat), nth? (imgSels f l ss) i = (nth? ss i).map (imgSel f l)
+  | .nil, i => by simp [imgSels, nth?]
+  | .cons s rest, 0 => by simp [imgSels, nth?]
+  | .cons s rest, i + 1 => by simpa [imgSels, nth?] using nth?_imgSels f l rest i
+
+theorem subsOf_imgSel (f : Bytes → Bytes) (s : Selection) :
+    subsOf (imgSel f false s) = imgSels f false (subsOf s) := by
+  cases s <;> simp [imgSel, subsOf, imgSels]
+
+theorem kindOf_imgSel (f : Bytes → Bytes) (s : Selection) : kindOf (imgSel f false s) = kindOf s := by
+  cases s <;> simp [imgSel, kindOf]
+
+theorem selAt_imgSels (f : Bytes → Bytes) (path : List Nat) :
+    ∀ (ss : Selections) (i : Nat),
+      selAt (imgSels f false ss) i path = (selAt ss i path).map (imgSel f false) := by
+  induction path with
+  | nil => intro ss i; simp [selAt, nth?_imgSels]
+  | cons j path ih =>
+    intro ss i
+    simp only [selAt, nth?_imgSels]
+    cases h : nth? ss i with
+    | none => simp
+    | some s => simp [subsOf_imgSel, ih]
+
+theorem docRoot_imgDoc (f : Bytes → Bytes) (d : QueryDoc) (r : Root) :
+    docRoot (imgDoc f false d) r = (docRoot d r).map (imgSels f false) := by
+  cases r with
+  | op i =>
+    simp only [docRoot, imgDoc, List.getElem?_map]
+    cases d.ops[i]? <;> simp [imgOp]
+  | frag i =>
+    simp only [docRoot, imgDoc, List.getElem?_map]
+    cases d.frags[i]? <;> simp [imgFrag]
+
+theorem docSelAt_imgDoc (f : Bytes → Bytes) (d : QueryDoc) (r : Root) (i : Nat) (path : List Nat) :
+    docSelAt (imgDoc f false d) r i path = (docSelAt d r i path).map (imgSel f false) := by
+  simp only [docSelAt, docRoot_imgDoc]
+  cases docRoot d r with
+  | none => simp
+  | some ss => simp [selAt_imgSels]
+
+/- ---------------- ASCII strings are fixed by the coercion ---------------- -/
+
+theorem sanitizeFuel_ascii : ∀ (fuel : Nat) (bs : Bytes), bs.length ≤ fuel → (∀ x ∈ bs, x < 128) →
+    sanitizeFuel fuel bs = bs
+  | 0, bs, hl, _ => by
+    have : bs = [] := List.length_eq_zero_iff.mp (Nat.le_zero.mp hl)
+    subst this; simp [sanitizeFuel]
+  | fuel + 1, [], _, _ => by simp [sanitizeFuel]
+  | fuel + 1, b :: rest, hl, ha => by
+    have hb : b < 128 := ha b (by simp)
+    have ih := sanitizeFuel_ascii fuel rest (by simpa using hl) (fun x hx => ha x (by simp [hx]))
+    have hd : decodeRune (b :: rest) = (b, 1) := by simp [decodeRune]; omega
+    have hne : b ≠ runeError := by simp [runeError]; omega
+    simp [sanitizeFuel, hd, hne, ih]
+
+theorem sanitize_ascii (b : Bytes) (h : ∀ x ∈ b, x < 128) : sanitize b = b :=
+  sanitizeFuel_ascii b.length b (Nat.le_refl _) h
+
+/- ---------------- zeroing positions is idempotent ---------------- -/
+
+theorem imgType_idem (t : GType) : imgType id (imgType id t) = imgType id t := by
+  induction t with
+  | named n nn p => simp [imgType]
+  | list e nn p ih => simp [imgType, ih]
+
+mutual
+  theorem imgValue_idem (v : Value) : imgValue id (imgValue id v) = imgValue id v := by
+    match v with
+    | .mk k raw ch p => simp [imgValue, imgChildren_idem ch]
+  theorem imgChildren_idem (ch : Children) : imgChildren id (imgChildren id ch) = imgChildren id ch := by
+    match ch with
+    | .nil => simp [imgChildren]
+    | .cons n v p rest => simp [imgChildren, imgValue_idem v, imgChildren_idem rest]
+end
+
+theorem imgArg_idem (a : Argument) : imgArg id (imgArg id a) = imgArg id a := by
+  simp [imgArg, imgValue_idem]
+
+theorem imgArgs_idem (as : List Argument) : (as.map (imgArg id)).map (imgArg id) = as.map (imgArg id) := by
+  simp [List.map_map, Function.comp_def, imgArg_idem]
+
+theorem imgDir_idem (d : Directive) : imgDir id (imgDir id d) = imgDir id d := by
+  simp [imgDir, imgArg_idem]
+
+theorem imgDirs_idem (ds : List Directive) : (ds.map (imgDir id)).map (imgDir id) = ds.map (imgDir id) := by
+  simp [List.map_map, Function.comp_def, imgDir_idem]
+
+mutual
+  theorem imgSel_idem (s : Selection) : imgSel id false (imgSel id false s) = imgSel id false s := by
+    match s with
+    | .field al nm args ds sel p => simp [imgSel, imgArg_idem, imgDir_idem, imgSels_idem sel]
+    | .spread nm ds p => simp [imgSel, imgDir_idem]
+    | .inline tc ds sel p => simp [imgSel, imgDir_idem, imgSels_idem sel]
+  theorem imgSels_idem (ss : Selections) : imgSels id false (imgSels id false ss) = imgSels id false ss := by
+    match ss with
+    | .nil => simp [imgSels]
+    | .cons s rest => simp [imgSels, imgSel_idem s, imgSels_idem rest]
+end
+
+theorem imgVarDef_idem (v : VarDef) : imgVarDef id (imgVarDef id v) = imgVarDef id v := by
+  have hd : (v.default.map (imgValue id)).map (imgValue id) = v.default.map (imgValue id) := by
+    cases v.default <;> simp [imgValue_idem]
+  simp [imgVarDef, imgType_idem, hd, imgDir_idem]
+
+theorem imgVarDefs_idem (vs : List VarDef) : (vs.map (imgVarDef id)).map (imgVarDef id) = vs.map (imgVarDef id) := by
+  simp [List.map_map, Function.comp_def, imgVarDef_idem]
+
+theorem stripDoc_idem (d : QueryDoc) : stripDoc (stripDoc d) = stripDoc d := by
+  have ho : ∀ o : OperationDef, imgOp id false (imgOp id false o) = imgOp id false o := by
+    intro o; simp [imgOp, imgVarDef_idem, imgDir_idem, imgSels_idem]
+  have hf : ∀ fr : FragmentDef, imgFrag id false (imgFrag id false fr) = imgFrag id false fr := by
+    intro fr; simp [imgFrag, imgVarDef_idem, imgDir_idem, imgSels_idem]
+  simp [stripDoc, imgDoc, List.map_map, Function.comp_def, ho, hf]
+
+/- ---------------- any selection object: its kind is decided by its keys ---------------- -/
+
+theorem decSelItems_obj_kind (kvs : JFields) (s : Selection) (rest : Selections)
+    (h : decSelItems currentDisc (.cons (.obj kvs) .nil) = .cons s rest) :
+    rest = .nil ∧
+    kindOf s = (if kvs.hasKey kAlias then SelKind.field
+                else if kvs.hasKey kTypeCondition then SelKind.inline else SelKind.spread) := by
+  by_cases hA : kvs.hasKey kAlias = true
+  · cases hf : decFieldKeys repairedDisc kvs {} with
+    | error e => simp [decSelItems, currentDisc, repairedDisc, hA, pick, consOpt, hf, Except.map] at h
+    | ok a =>
+      simp [decSelItems, currentDisc, repairedDisc, hA, pick, consOpt, hf, Except.map] at h
+      obtain ⟨h1, h2⟩ := h
+      subst h1
+      exact ⟨h2.symm, by simp [hA, FieldAcc.toSel, kindOf]⟩
+  · by_cases hT : kvs.hasKey kTypeCondition = true
+    · cases hf : decInlineKeys repairedDisc kvs {} with
+      | error e => simp [decSelItems, currentDisc, repairedDisc, hA, hT, pick, consOpt, hf, Except.map] at h
+      | ok a =>
+        simp [decSelItems, currentDisc, repairedDisc, hA, hT, pick, consOpt, hf, Except.map] at h
+        obtain ⟨h1, h2⟩ := h
+        subst h1
+        exact ⟨h2.symm, by simp [hA, hT, InlineAcc.toSel, kindOf]⟩
+    · cases hf : decSpreadKeys kvs ([], []) with
+      | error e => simp [decSelItems, currentDisc, repairedDisc, hA, hT, pick, consOpt, hf, Except.map] at h
+      | ok a =>
+        simp [decSelItems, currentDisc, repairedDisc, hA, hT, pick, consOpt, hf, Except.map] at h
+        obtain ⟨h1, h2⟩ := h
+        subst h1
+        exact ⟨h2.symm, by simp [hA, hT, spreadOf, kindOf]⟩
 
 end Gql.Json
